@@ -232,7 +232,7 @@ class Runner:
         return [s.line(self.pcre) for s in scns]
 
     def impl_obs(self, lines):
-        rc, out, err = vlib.run_lines(self.impl, lines)
+        rc, out, err = vlib.run_lines(self.impl, lines, timeout=600 if len(lines) > 50 else 60)
         return rc, out + ['CRASH'] * (len(lines) - len(out)), err
 
     def model_obs(self, lines):
@@ -405,7 +405,9 @@ def run():
     disagree = [k for k, (a, b) in enumerate(zip(obs_i, obs_m)) if a != b]
     model_bad = [k for k, v in enumerate(run_.oracle(lines, obs_m)) if v != '1']
     reported = set()
-    for k in sorted(falsified, key=lambda k: len(lines[k]))[:40]:
+    order = sorted(falsified, key=lambda k: len(lines[k]))
+    alone = [k for k in order[:60] if run_.bad(scns[k])]       # falsified when run alone in a fresh process
+    for k in alone[:40]:
         small = shrink(run_, scns[k])
         kinds = [KIND[c] for c in small.kinds() if c in KIND] or ['structure']
         kind = kinds[0] if len(kinds) == 1 else 'mixed'
@@ -421,6 +423,44 @@ def run():
                   'specified_observations': run_.spec_obs([l])[0],
                   'model_observations': run_.model_obs([l])[0], 'falsified_scenarios': len(falsified), 'legend': OBJ_DOC,
                   'scn': {'objs': small.objs, 'pipes': small.pipes, 'msgs': small.msgs}}, kind=kind)
+    if falsified and not alone:
+        # no falsified scenario fails on its own: the handler objects of one scenario were influenced by
+        # objects of EARLIER scenarios of the same process (state that is not per object).  The failing
+        # input is then a list of scenarios run one after the other in one process.
+        k = min(falsified)
+
+        def bad_seq(idx):
+            ls = [lines[i] for i in idx]
+            _, o, _ = run_.impl_obs(ls)
+            return any(v != '1' for v in run_.oracle(ls, o))
+        pre = list(range(max(0, k - 300), k))
+        if not bad_seq(pre + [k]):
+            pre = list(range(k))
+        pre = vlib.shrink_list(pre, lambda keep: bad_seq(keep + [k]), max_steps=120)
+        idx = pre + [k]
+        smalls = [prune(scns[i]) for i in idx]
+        for j in range(len(smalls)):          # shorten every scenario's message list, keeping the whole list failing
+            def with_msgs(ms, j=j):
+                return [sc if i != j else Scn(sc.objs, sc.pipes, ms) for i, sc in enumerate(smalls)]
+
+            def still(ms):
+                ls = [sc.line(run_.pcre) for sc in with_msgs(ms)]
+                if not ms:
+                    return False
+                _, o, _ = run_.impl_obs(ls)
+                return any(v != '1' for v in run_.oracle(ls, o))
+            smalls = [prune(sc) for sc in with_msgs(vlib.shrink_list(smalls[j].msgs, still, max_steps=60))]
+        ls = [sc.line(run_.pcre) for sc in smalls]
+        o = run_.impl_obs(ls)[1]
+        kinds = sorted({KIND[c] for sc in smalls for c in sc.kinds() if c in KIND}) or ['structure']
+        kind = kinds[0] if len(kinds) == 1 else 'mixed'
+        chk.fail('%s rule violated: handler objects of one scenario are influenced by the objects of an earlier scenario in the '
+                 'same process (%d scenarios run one after the other)' % (kind, len(ls)),
+                 {'kind': kind, 'handler_kinds': kinds, 'cross_scenario': True, 'scenario_lines': ls,
+                  'implementation_observations': o, 'specified_observations': run_.spec_obs(ls),
+                  'falsified_scenarios': len(falsified), 'legend': OBJ_DOC,
+                  'note': 'every scenario creates its own handler objects; the lines are run in ONE harness process, in this order',
+                  'scns': [{'objs': sc.objs, 'pipes': sc.pipes, 'msgs': sc.msgs} for sc in smalls]}, kind=kind)
     if disagree:
         k = min(disagree, key=lambda k: len(lines[k]))
         chk.broke('correspondence: model (translated configuration) and real handlers differ on %d scenarios' % len(disagree),
@@ -511,6 +551,18 @@ def replay(path):
         print('LevelFilter(%s) on a %s message' % (r['threshold'], r['type']))
         print('implementation passes', vlib.run_lines(impl, [l], ['level'])[1])
         print('model passes / specified', vlib.run_lines(model, [l], ['level'])[1])
+        return 0
+    if r.get('scns'):
+        run_ = Runner(model, impl)
+        scs = [Scn(x['objs'], x['pipes'], [tuple(m) for m in x['msgs']]) for x in r['scns']]
+        run_.need_pcre(scs); run_.drop_unprintable(scs)
+        ls = run_.lines(scs)
+        o = run_.impl_obs(ls)[1]
+        print('scenarios (one process, in order)'); [print('   ', l) for l in ls]
+        print('legend         ', OBJ_DOC)
+        print('implementation ', o)
+        print('specified      ', run_.spec_obs(ls))
+        print('rules hold on the implementation output:', run_.oracle(ls, o))
         return 0
     s = r.get('scn')
     if not s:
